@@ -128,6 +128,9 @@ type FnVC struct {
 	ghostDesc    map[string]string
 	elemRange    map[string][2]string
 	heapGoType   map[string]types.Type
+	pendingAlloc [][2]string
+	ptrHeap      map[string][2]string
+	heapAlias    map[string]string
 	heapNextref  map[string]string
 	extra        []*Obl
 }
@@ -248,11 +251,54 @@ func (f *FnVC) fieldHeap(st types.Type, idx int) (heap string, fld DTField) {
 	dt := f.sorts.dtOf(st)
 	fld = dt.Fields[idx]
 	heap = f.regHeap("H_"+dt.Name[2:]+"_"+sanitize(fld.Name), "(Array Int "+fld.Sort+")")
+	f.notePtrHeap(heap, fld.Ty, 1)
 	return
+}
+
+// notePtrHeap remembers heaps whose values are references, for the closedness axiom (every stored reference
+// was allocated before the heap version came into being).
+func (f *FnVC) notePtrHeap(h string, valTy types.Type, depth int) {
+	if f.ptrHeap == nil {
+		f.ptrHeap = map[string][2]string{}
+	}
+	kind := ""
+	switch valTy.Underlying().(type) {
+	case *types.Pointer, *types.Map, *types.Chan:
+		kind = "ref"
+	case *types.Slice:
+		kind = "slice"
+	}
+	if kind != "" {
+		f.ptrHeap[h] = [2]string{kind, fmt.Sprint(depth)}
+	}
+}
+
+func (f *FnVC) closednessAxiom(h, c, bound string) {
+	info, ok := f.ptrHeap[h]
+	if !ok {
+		return
+	}
+	key := "closed:" + c
+	if f.declSet[key] {
+		return
+	}
+	f.declSet[key] = true
+	val := "(select " + c + " r)"
+	binds := "((r Int))"
+	if info[1] == "2" {
+		val = "(select (select " + c + " r) k)"
+		binds = "((r Int) (k Int))"
+	}
+	ref := val
+	if info[0] == "slice" {
+		ref = "(s_ref " + val + ")"
+	}
+	f.qfacts = append(f.qfacts, "(forall "+binds+" (! (< "+ref+" "+bound+") :pattern ("+val+")))")
 }
 
 func (f *FnVC) elemHeap(elem types.Type) string {
 	h := f.regHeap("E_"+shortTypeName(elem), "(Array Int (Array Int "+f.sorts.sortOf(elem)+"))")
+	f.notePtrHeap(h, elem, 2)
 	if lo, hi, ok := intRange(elem); ok {
 		if f.elemRange == nil {
 			f.elemRange = map[string][2]string{}
@@ -484,6 +530,14 @@ func (f *FnVC) resolveLoc(v ssa.Value) Loc {
 
 // isInterior: pointer value that designates the inside of another object (struct-typed field or array field),
 // which we resolve structurally instead of through an Int ref.
+func (f *FnVC) isInteriorBase(v ssa.Value) bool {
+	switch v.(type) {
+	case *ssa.FieldAddr, *ssa.IndexAddr, *ssa.Global:
+		return true
+	}
+	return false
+}
+
 func (f *FnVC) isInterior(v ssa.Value) bool {
 	switch x := v.(type) {
 	case *ssa.FieldAddr:
@@ -524,7 +578,26 @@ func (f *FnVC) val(v ssa.Value) TV {
 		tv := f.tv(t, x.Type())
 		f.vals[v] = tv
 		return tv
-	case *ssa.FieldAddr, *ssa.IndexAddr:
+	case *ssa.FieldAddr:
+		if !f.isInteriorBase(x.X) {
+			// address of a field used as a value (e.g. method call on an embedded struct field): a deterministic
+			// function of the enclosing object's reference
+			st := x.X.Type().Underlying().(*types.Pointer).Elem()
+			dt := f.sorts.dtOf(st)
+			fn := f.declFun("fptr_"+dt.Name[2:]+"_"+sanitize(dt.Fields[x.Field].Name), []string{"Int"}, "Int")
+			t := sApp(fn, f.val(x.X).T)
+			f.fact(sImp("(> "+f.val(x.X).T+" 0)", "(> "+t+" 0)"))
+			tv := f.tv(t, v.Type())
+			f.vals[v] = tv
+			return tv
+		}
+		t := f.declConst("iptr_"+v.Name(), "Int")
+		f.fact("(> " + t + " 0)")
+		f.warn("interior pointer %s materialised as an opaque reference", v.Name())
+		tv := f.tv(t, v.Type())
+		f.vals[v] = tv
+		return tv
+	case *ssa.IndexAddr:
 		// materialised interior pointer: opaque ref
 		t := f.declConst("iptr_"+v.Name(), "Int")
 		f.fact("(> " + t + " 0)")
@@ -581,7 +654,14 @@ func (f *FnVC) typeInv(t string, ty types.Type) []string {
 		if u.Info()&types.IsString != 0 {
 			out = append(out, "(<= 0 (slen "+t+"))", "(<= (slen "+t+") 4611686018427387904)")
 		}
-	case *types.Pointer, *types.Map, *types.Chan, *types.Signature, *types.Interface:
+	case *types.Interface:
+		out = append(out, "(<= 0 "+t+")")
+		if nt, ok := ty.(*types.Named); ok && u.NumMethods() > 0 {
+			// a non-nil value of a (non-empty) interface type has a dynamic type that implements it
+			impl := f.declFun("implements_"+sanitize(typeKey(nt)), []string{"Int"}, "Bool")
+			out = append(out, "(=> (not (= "+t+" 0)) ("+impl+" (typeof "+t+")))")
+		}
+	case *types.Pointer, *types.Map, *types.Chan, *types.Signature:
 		out = append(out, "(<= 0 "+t+")")
 	}
 	return out
